@@ -245,9 +245,56 @@ def rule_r4(prog, res) -> None:
         raise AnalysisError("C13.R4: nothing typed")
 
 
+def rule_r5(prog, res) -> None:
+    """sky coordinates computed from 3-vectors do not depend on the length of the vector (degree zero in the vector):
+    the library hands `from_3d` averages of unit vectors (patch centres through `mean()`), whose length is below one —
+    an angle taken from an un-normalised component moves every data-derived patch centre towards the equator and with
+    it patch membership, jackknife samples and covariance, while totals stay put"""
+    ac = prog.find_class("AngularCoordinates")
+    f3 = ac.methods.get("from_3d")
+    if f3 is None:
+        raise AnalysisError("C13.R5: AngularCoordinates.from_3d vanished")
+    res.touch(f3)
+    vec = next((q for q in f3.param_names() if q not in ("cls", "self")), None)
+    if vec is None:
+        raise AnalysisError("C13.R5: from_3d has no vector parameter")
+
+    def atom(e):
+        if isinstance(e, ast.Name) and e.id == vec:
+            return homog.Deg.of({vec: 1})
+        if isinstance(e, ast.Call) and isinstance(e.func, ast.Name) and e.func.id in (symx.LOOP, symx.ELEM) and e.args:
+            return homog.degree(e.args[0], atom)
+        return None
+
+    n = 0
+    for p in symx.explore(prog, f3, inline=symx.inline_private_helpers(prog)):
+        if p.outcome != "return" or p.value is None:
+            continue
+        v = p.value
+        while isinstance(v, ast.Call) and (isinstance(v.func, ast.Name) and v.func.id in ("cls", ac.name) or (isinstance(v.func, ast.Call) and isinstance(v.func.func, ast.Name) and v.func.func.id == "type")) and v.args:
+            v = v.args[0]
+        d = homog.degree(v, atom)
+        n += 1
+        if isinstance(d, homog.Deg) and not d.exps or isinstance(d, homog.Zero):
+            res.ok("C13.R5", res.site(f3, "scale-free"), "the returned angles are of degree zero in the input vector")
+        elif isinstance(d, homog.Unknown_):
+            raise AnalysisError(f"C13.R5: degree of the angles returned by from_3d cannot be typed ({d})")
+        else:
+            res.violation("C13.R5", f3, p.node or f3.node, f"the angles returned by from_3d depend on the length of the vector ({d}): mean() passes the un-normalised average of unit vectors, so every patch centre computed from data is shifted in declination", key_extra="from-3d-not-scale-free")
+    if n == 0:
+        raise AnalysisError("C13.R5: from_3d has no returning path")
+    # the caller that relies on it: mean() averages unit vectors and converts the (shorter) average back
+    mean = ac.methods.get("mean")
+    if mean is not None:
+        res.touch(mean)
+        if any(f3 in prog.resolve_call(mean, c).funcs() for c in calls_in(mean)):
+            res.ok("C13.R5", res.site(mean), "mean() converts the average vector through from_3d", nontrivial=False)
+
+
 RULES = [
     ("C13.R1", rule_r1, QUICK),
     ("C13.R2", rule_r2, QUICK),
     ("C13.R3", rule_r3, QUICK),
     ("C13.R4", rule_r4, QUICK),
+    ("C13.R5", rule_r5, QUICK),
 ]
